@@ -46,6 +46,14 @@ check('C16', 'model_checking',
       'exhaustive only up to MaxLen 4 (quick) / 6 (thorough) class strings and 2-phrase dictionaries; beyond that seeded sampling; characters outside the closed pool are not exercised',
       'TLC model checking of tokenizer/trie transcriptions; spec->code replay of every state; TLC trace validation')
 
+check('C20', 'model_checking',
+      'Every case of the TLA+ generator Gen_Choice (all listed affirmative/negative expressions incl. emoji with and without skin-tone modifier x letter case '
+      'x prefixes/suffixes; all true/false pairs in both orders; all sequences of <=3 neutral tokens; empty/whitespace) is replayed into recognize_boolean and judged '
+      'by TLC against Choice.tla (exactly one entity, span, polarity, score in [0,1], nothing on neutral text). Exhaustive over the generator in both tiers.',
+      'DESIGN.md section 4, C20',
+      'only the English boolean model exists; word lists are written in the spec (not read from the resource); surroundings are the finite pools of Gen_Choice.cfg',
+      'TLA+ generator enumerated by TLC; spec->code replay; TLC trace validation')
+
 NOT_APPLICABLE['C18'] = ('equates two sets of static files through the resource generator: no state, transition or case analysis for a TLA+ '
                          'specification to capture; the generator also cannot run here (ruamel.yaml is neither installed nor in the wheelhouse). '
                          'See DESIGN.md section 6.')
